@@ -522,6 +522,24 @@ func (x *fnCtx) alloc(st *State, v *ssa.Alloc) *Val {
 		return out
 	}
 	x.store(st, a, zeroVal(el))
+	if !v.Heap {
+		// record the heap components holding this stack object
+		var names []string
+		switch a.Kind {
+		case AObj:
+			base, _ := heapKeyStruct(a.Root, a.Path)
+			for _, l := range layout(el) {
+				names = append(names, base+l.Suffix)
+			}
+		case ACell:
+			for _, l := range layout(el) {
+				names = append(names, cellHeapName(el)+l.Suffix)
+			}
+		}
+		if len(names) > 0 {
+			st.stackObjs = append(st.stackObjs, stackObj{ref: r, names: names})
+		}
+	}
 	return out
 }
 
@@ -1465,6 +1483,32 @@ func (x *fnCtx) selectOp(st *State, fr *Frame, v *ssa.Select) *Val {
 	res := &Val{T: v.Type(), Tup: []*Val{scalar(tup.At(0).Type(), idx), scalar(tup.At(1).Type(), Fresh("select.ok", SBool))}}
 	for i := 2; i < tup.Len(); i++ {
 		res.Tup = append(res.Tup, x.havocVal(st, tup.At(i).Type(), "select.recv"))
+	}
+	// a non-blocking select that takes the default branch found no receive ready: a channel
+	// that is only ever closed (never sent on) is then not closed -- a fact that is stable only
+	// while the lock guarding the channel's closed state is held (concurrent mode)
+	if !v.Blocking {
+		closed := x.heapArr(st, "$chanclosed", ArrSort(SInt, SBool))
+		for _, s := range v.States {
+			if s.Dir != types.RecvOnly {
+				continue
+			}
+			ch := x.getVal(st, fr, s.Chan)
+			fact := Implies(Eq(idx, IntLit(-1)), Not(Select(closed, ch.L[0])))
+			if x.lockLayer() {
+				if ch.Src == nil {
+					continue
+				}
+				ts, g := x.chanGuardOf(ch.Src)
+				if ts == nil || g == nil {
+					continue
+				}
+				id := x.lockIDFor(ch.Src, g.Lock)
+				fact = Implies(Ge(Select(lockArr(st.heap), id), IntLit(1)), fact)
+			}
+			st.assume(fact)
+		}
+		libUsed["channels used as done-signals are closed, never sent on (select default => not closed)"] = true
 	}
 	x.eng.logAbs("%s: select modelled as a nondeterministic choice", x.short)
 	return res
